@@ -72,7 +72,8 @@ def _style_ops(rng, n):
 
 LINES = [["probe", "1"], ["probe", "1", "2", "3"], ["probe", "--nope"], ["probe", "--count=abc", "1"],
          ["probe", "--count=abc", "-h"], ["probe", "-h"], ["help", "probe"], ["--version"], ["nosuch"],
-         ["probe", "--count=5", "1"], ["lenient", "a", "b", "c"], ["lenient", "-h"], ["help", "lenient"], ["-h"]]
+         ["probe", "--count=5", "1"], ["lenient", "a", "b", "c"], ["lenient", "-h"], ["help", "lenient"], ["-h"],
+         ["counter", "x"], ["counter", "y"], ["counter", "-h"], ["counter"]]
 
 
 def generate(tier, rng):
@@ -164,6 +165,16 @@ class _H(object):
         return 0
 
 
+class _Counting(object):
+    def __init__(self):
+        self.seen = []
+
+    def handle(self, args, io, command):
+        self.seen.append(args.argument("a"))
+        io.write_line("seen so far: %r" % (self.seen,))
+        return len(self.seen) - 1
+
+
 def _new_app(tree, shared_parser=False):
     from clikit.api.args.format.argument import Argument
     from clikit.api.args.format.option import Option
@@ -177,6 +188,11 @@ def _new_app(tree, shared_parser=False):
     l.add_argument("a", Argument.OPTIONAL)
     l.enable_lenient_args_parsing()
     l.set_handler(_H(("lenient",)))
+    # a handler given as a FACTORY (Config.set_handler accepts a callable): every run gets a handler of its own,
+    # so state kept by a handler object cannot leak into the next run
+    k = config.create_command("counter")
+    k.add_argument("a", Argument.OPTIONAL)
+    k.set_handler(lambda: _Counting())
     if shared_parser:
         # one parser object installed for several commands (Config.set_args_parser)
         from clikit.args.default_args_parser import DefaultArgsParser
